@@ -14,7 +14,9 @@ ASSUMPTIONS = [
   "a GaussianProcess always holds at least one observation (asserted by its constructor)",
   "aliasing clauses (caller's acquisition function, models and request data unchanged) are decided by deep comparison around every call, "
   "not by a theorem (a pure model cannot alias)",
-  "the optimisers inside constant liar and search are arbitrary functions of the acquisition function they are handed (stubbed in the harness)",
+  "the optimisers inside constant liar and search are arbitrary functions of the acquisition function they are handed (stubbed in the harness); "
+  "in addition the searcher runs the constant-liar loop with its real DE / Adam optimisers at reduced effort and requires every pick to be a point "
+  "evaluated while the copied acquisition function held the lies at the previous picks (the optimisers return the best point they evaluated: C07)",
   "GP endpoint, 'their model' of the endpoint clause is the predictor of the acquisition function the optimiser is handed (every component of a sum "
   "of GPs); the GPs under the failure model (constraint metrics, epsilon-constraint thresholds) get lies only under constant liar - under qEI "
   "they stay as built (modelled: feed_failure_gp, C15_failure_model_gps; parallel EI with failures samples them at its pending set, the multitask "
@@ -26,7 +28,8 @@ TRUSTED = ["tools/props/C15.py + tools/lib/c15_util.py: case generators, stub op
            "Model/LiesCorr.v check function"]
 LEVEL_TEXT = ("Coq theorems by induction over arbitrary operation sequences (state invariants of three state machines: GP lie data with "
               "its memoised best index, the sum of GPs with its three memoised sums, the Parzen estimator's lie lists) and over the "
-              "constant-liar and search loops with an arbitrary optimiser; the models are tied to the code by random operation sequences "
+              "constant-liar (GP, GP sum, and the Parzen routine on an estimator that already holds pending-point lies: stash / lie / recover) "
+              "and search loops with an arbitrary optimiser; the Parzen endpoint keeps the pending points as lies through its sampler; the models are tied to the code by random operation sequences "
               "run against the real objects with every accessor output compared inside Coq, and the decidable forms of the invariants are "
               "evaluated on the implementation's own outputs")
 LEVEL_NOTE = ("Exact arithmetic over Q; immutability of caller-owned objects is a runtime deep comparison; the endpoint clause is proved for the "
@@ -193,6 +196,17 @@ def gen_input(rng, kind, real=False):
     if not real and rng.random() < 0.12:                     # malformed stream: a lie of the wrong length somewhere
       ops.insert(rng.randint(0, len(ops)), ["append_bad", rng.randint(1, 2), rng.random() < 0.5])
     return dict(dim=dim, pts=p, vals=[float(x) for x in v], gamma=rng.choice([0.25, 0.5, 0.3]), ops=ops)
+  if kind == "pzcl":     # the Parzen constant liar on an estimator that already holds lies (what pending points leave behind)
+    n = rng.randint(10, 13)
+    p = [fresh.point(dim) for _ in range(n)]
+    v = list(range(n)) if not real else [rng.gauss(0, 1) for _ in range(n)]
+    rng.shuffle(v)
+    inp = dict(dim=dim, pts=p, vals=[float(x) for x in v], gamma=rng.choice([0.25, 0.5, 0.3]), n=rng.randint(1, 4),
+               pre_lower=[fresh.point(dim) for _ in range(rng.choice([0, 0, 0, 1, 2]))],
+               pre_greater=[fresh.point(dim) for _ in range(rng.choice([0, 1, 1, 2, 3]))])
+    if real:
+      inp["picks"] = [fresh.point(dim) for _ in range(inp["n"])]
+    return inp
   if kind in ("clgp", "clsum"):
     inp = dict(base, n=rng.randint(1, 4), warm=rng.random() < 0.5, tik=tik, af_kind=rng.choice(["ei", "ei", "multitask", "aei"]))
     if kind == "clgp":
@@ -260,6 +274,11 @@ def observe(kind, inp):
       comps = C.listlit([hist(d, inp["pts"], c["vals"], c["noise"]) for c in inp["comps"]])
       term = f"CCLSum {comps} {vec(inp['weights'])} {C.nlit(inp['n'])} {pts(r['picks'])} {seen} {C.blit(r['unchanged'])}"
     return term, r
+  if kind == "pzcl":
+    r = U.run_pz_constant_liar(inp)
+    term = (f"CPzCL {pz_lit(d, r['init'])} {C.nlit(inp['n'])} {pts(r['picks'])} {C.listlit([pz_lit(d, x) for x in r['seen']])} "
+            f"{pz_lit(d, r['final'])}")
+    return term, r
   if kind == "search":
     r = U.run_search(inp)
     st = lambda s: f"(mkSearch {pts(s['repulsors'])} {C.qlit(s['dist'])})"
@@ -277,10 +296,12 @@ def nontrivial(kind, inp):
   if kind == "pz":
     ks = [op[0] for op in inp["ops"]]
     return "stash" in ks and "recover" in ks and any(op[0] == "append" and op[1] for op in inp["ops"])
+  if kind == "pzcl":
+    return bool(inp["pre_lower"] or inp["pre_greater"])      # the estimator holds lies before the call
   return inp["n"] >= 2
 
 
-KINDS = ["gp", "gp", "sum", "sum", "sum", "pz", "pz", "clgp", "clsum", "search"]
+KINDS = ["gp", "gp", "sum", "sum", "sum", "pz", "pz", "clgp", "clsum", "search", "pzcl"]
 
 
 def correspondence(ctx):
@@ -324,7 +345,9 @@ def correspondence(ctx):
               rule="GP / GP-sum histories of 3-12 ops (3-30 in the thorough tier; +5 final reads) over 2-4 integer-valued observations in 1-2 dims: appends of 0-3 distinct "
                    "locations (min/max/mean lie, wrong-dimension blocks), every accessor, predictions; Parzen histories of 3-14 ops over 10-13 "
                    "points (append lower/greater, clear, stash, recover of any earlier stash or explicit lists, malformed lies); constant liar "
-                   "(n<=4, GP and GP-sum predictors, caches warm or cold) and search (n<=4) with state-dependent stub optimisers; real endpoint "
+                   "(n<=4, GP and GP-sum predictors, caches warm or cold; the Parzen constant liar on estimators already holding 0-2 lower and 0-3 "
+                   "greater lies) and search (n<=4) with state-dependent stub optimisers; the real Parzen endpoint through create_spe_suggestions / "
+                   "draw_samples / constant liar (one batch of the rejection sampler, multistart stubbed) with 0-3 pending points; real endpoint "
                    "calls with recording stubs (what the optimiser is handed, at the moment it is called): random requests plus a fixed sweep of "
                    "the GP endpoint with qEI on multitask requests (1-3 pending points x failures x plain / augmented EI, failure models, sums "
                    "of GPs) and its neighbours; non-trivial = an accessor read precedes a non-empty append (GP, sum), stash+recover+append "
@@ -426,13 +449,20 @@ def qei_fallback_sweep(rng, exact):
   return out
 
 
+def spe_pending_sweep(rng, exact):
+  """The Parzen endpoint with 1-3 (and no) open suggestions, single suggestions and batches: what the sampler's own constant-liar pick
+  leaves of the pending-point lies."""
+  return [gen_endpoint(rng, exact=exact, endpoint="spe", force=dict(npend=npend, num_to_sample=nts, tasks=False))
+          for npend in (1, 2, 3, 0) for nts in (1, 3)]
+
+
 def endpoint_tag(inp):
   return f"endpoint:{inp['endpoint']}:{inp['parallelism']}" + (":multitask" if inp["task_options"] else "")
 
 
 def endpoint_cases(ctx, n):
   cases, meta, dis = [], [], []
-  inputs = qei_fallback_sweep(ctx.rng, True) + [gen_endpoint(ctx.rng, exact=True) for _ in range(n)]
+  inputs = qei_fallback_sweep(ctx.rng, True) + spe_pending_sweep(ctx.rng, True) + [gen_endpoint(ctx.rng, exact=True) for _ in range(n)]
   for inp in inputs:
     r = U.run_endpoint(inp)
     tagk = endpoint_tag(inp)
@@ -469,6 +499,12 @@ def endpoint_cases(ctx, n):
       d = len(r["parzen"]["formed"]["lower"][0])
       cases.append(f"CFeedPz {pz_lit(d, r['parzen']['formed'])} {pts(pend)} {pz_lit(d, r['parzen']['at_sampling'])}")
       meta.append((tagk + ":parzen-model", inp, r["parzen"]))
+    if r["parzen"] and "after_sampling" in r["parzen"] and "cl_pick" in r["parzen"]:
+      z = r["parzen"]
+      d = len(z["formed"]["lower"][0])
+      cases.append(f"CSpeSampling {pz_lit(d, z['formed'])} {pts(pend)} {pt(z['cl_pick'])} {pz_lit(d, z['cl_seen'])} "
+                   f"{pz_lit(d, z['after_sampling'])} {C.listlit([pz_lit(d, x) for x in z['evals_after_pick']])}")
+      meta.append((tagk + ":parzen-sampling" + (":pending" if pend else ""), inp, {k: z[k] for k in ("cl_seen", "after_sampling", "cl_pick")}))
     if r["search"] and not any(c["var_type"] == "categorical" for c in inp["components"]):
       lo, hi = cube_bounds(inp)
       cases.append(f"CFeedSearch {vec(lo)} {vec(hi)} {pts(inp['points'])} {pts(inp['pending'])} {pts(r['search']['repulsors'])}")
@@ -595,6 +631,67 @@ def oracle_constant_liar(kind, inp):
   return None
 
 
+def gen_clreal(rng):
+  """2-4 picks by the real constant-liar routine (real DE / Adam at reduced effort) over a GP or a sum of GPs on real-valued data"""
+  inp = gen_input(rng, rng.choice(["clgp", "clgp", "clsum"]), real=True)
+  inp.pop("picks", None)
+  inp.pop("af_kind", None)
+  inp.update(n=rng.randint(2, 4), seed=rng.randrange(2 ** 31))
+  return inp
+
+
+def oracle_constant_liar_real(inp):
+  """The constant-liar routine with its real optimisers: besides the bookkeeping of oracle_constant_liar, each returned pick must be an
+  ANSWER OF THE OPTIMISATION THAT RAN AGAINST THE LIES AT THE PREVIOUS PICKS - a point evaluated (by DE or Adam, which return the best
+  point they evaluated: C07) while the copied acquisition function held exactly those lies.  A pick computed against an earlier state
+  of the model (say, remembered by an optimiser object that outlives its round) is not conditioned on the lies placed since."""
+  import numpy as _np
+  kind = "clreal"
+  r = U.run_constant_liar_real(inp)
+  if not r["unchanged"]:
+    return _fail(kind, inp, "caller's acquisition function modified", r["detail"], "unchanged (works on a deep copy)")
+  k = inp["n"]
+  if len(r["picks"]) != k or len(r["rounds"]) != k:
+    return _fail(kind, inp, "number of picks", [len(r["picks"]), len(r["rounds"])], k)
+  comps = [inp] if "comps" not in inp else inp["comps"]
+  w = [1.0] if "comps" not in inp else inp["weights"]
+  n0 = len(inp["pts"])
+  for i, s in enumerate(r["rounds"]):
+    ev = [sum(wi * c["vals"][j] for wi, c in zip(w, comps)) for j in range(n0)] + [sum(wi * max(c["vals"]) for wi, c in zip(w, comps))] * i
+    ep = [list(map(float, x)) for x in inp["pts"]] + r["picks"][:i]
+    atol = 1e-12 * max(sum(abs(wi * x) for wi, x in zip(w, col)) for col in zip(*[c["vals"] for c in comps]))
+    if s["num"] != n0 + i or s["pts"] != ep or not _close(s["vals"], ev, 1e-12, atol) or s["noise"][n0:] != [sum(wi * wi * 1e-12 for wi in w)] * i and not _close(s["noise"][n0:], [sum(wi * wi * 1e-12 for wi in w)] * i):
+      return _fail(kind, inp, "pick not conditioned on lies at the previous picks", dict(pick=i, saw={x: s[x] for x in ("num", "pts", "vals", "noise")}), dict(pts=ep, vals=ev))
+    row = _np.ascontiguousarray(r["picks"][i], dtype=float).tobytes()
+    if row not in s["evaluated"]:
+      earlier = [j for j in range(i) if r["picks"][j] == r["picks"][i]]
+      return _fail(kind, inp, "pick is not an answer of the optimisation that ran against the lies at the previous picks",
+                   dict(pick=i, point=r["picks"][i], repeats_earlier_picks=earlier, evaluated_in_its_round=False,
+                        optimiser_objects_new_in_this_round=[s["fresh_es"], s["fresh_gd"]]),
+                   "a point evaluated while the model held lies at picks 0..%d" % (i - 1))
+  return None
+
+
+def oracle_pz_constant_liar(inp):
+  r = U.run_pz_constant_liar(inp)
+  init, k = r["init"], inp["n"]
+  if not r["same_object"]:
+    return _fail("pzcl", inp, "the optimiser was not handed the caller's estimator", None, "the live estimator")
+  if len(r["picks"]) != k or len(r["seen"]) != k:
+    return _fail("pzcl", inp, "number of picks", len(r["picks"]), k)
+  for i, s in enumerate(r["seen"]):
+    exp = dict(lower=init["lower"], greater=init["greater"] + r["picks"][:i], lower_lies=init["lower_lies"], greater_lies=init["greater_lies"] + r["picks"][:i])
+    if s != exp:
+      return _fail("pzcl", inp, "pick not conditioned on the lies the estimator held plus lies at the previous picks", dict(pick=i, saw=s), exp)
+  if r["final"] != init:
+    lost = [x for x in init["lower_lies"] + init["greater_lies"] if x not in r["final"]["lower_lies"] + r["final"]["greater_lies"]]
+    what = ("the lies the estimator held before the call are gone afterwards" if lost else "the caller's estimator is not handed back as it was")
+    return _fail("pzcl", inp, "Parzen constant liar: " + what, r["final"], init)
+  if "picks" in inp and r["picks"] != [list(map(float, p)) for p in inp["picks"]]:
+    return _fail("pzcl", inp, "returned points are not the optimiser's answers", r["picks"], inp["picks"])
+  return None
+
+
 def oracle_search(inp):
   r = U.run_search(inp)
   lo, hi = numpy.array(inp["lo"]), numpy.array(inp["hi"])
@@ -625,6 +722,10 @@ def oracle(kind, inp):
       return oracle_constant_liar(kind, inp)
     if kind == "search":
       return oracle_search(inp)
+    if kind == "pzcl":
+      return oracle_pz_constant_liar(inp)
+    if kind == "clreal":
+      return oracle_constant_liar_real(inp)
     if kind == "endpoint":
       return oracle_endpoint(inp)
   except Exception as e:
@@ -691,6 +792,18 @@ def oracle_endpoint(inp):
     f, a = r["parzen"]["formed"], r["parzen"]["at_sampling"]
     if a["greater"] != f["greater"] + pend or a["lower"] != f["lower"] or a["greater_lies"] != pend or a["lower_lies"] != []:
       return _fail(kind, inp, "pending points not appended as lies to the Parzen model", a, dict(greater_tail=pend))
+  if ep == "spe" and r["parzen"] and "after_sampling" in r["parzen"]:
+    # ... and they stay there: the optimiser inside the sampler, every expected-improvement evaluation after its pick and the
+    # estimator the sampler leaves behind all hold the formed points plus the pending points as lies
+    z = r["parzen"]
+    exp = dict(lower=z["formed"]["lower"], greater=z["formed"]["greater"] + pend, lower_lies=[], greater_lies=pend)
+    if "cl_seen" in z and z["cl_seen"] != exp:
+      return _fail(kind, inp, "the optimiser inside the Parzen sampler does not see the pending points as lies", z["cl_seen"], exp)
+    for j, st in enumerate(z.get("evals_after_pick", []) + [z["after_sampling"]]):
+      if st != exp:
+        return _fail(kind, inp, "pending points no longer among the Parzen model's lies after the sampler's constant-liar pick "
+                                "(expected improvement is evaluated on a model without the open suggestions)",
+                     dict(evaluation=j, greater_lies=st["greater_lies"], n_greater=len(st["greater"])), dict(greater_lies=pend, n_greater=len(exp["greater"])))
   if ep == "search" and r["search"]:
     comps = inp["components"]
     ohd = sum(len(c["elements"]) if c["var_type"] == "categorical" else 1 for c in comps)
@@ -732,8 +845,16 @@ def search(ctx, hints, broken):
       fails.append(r)
       if len(fails) >= 4:
         break
+  # the constant-liar routine with its real optimisers (object histories inside the loop: an optimiser that outlives its round)
+  for _ in range(ctx.n(60, 600)):
+    inp = gen_clreal(rng)
+    n += 1
+    r = oracle("clreal", inp)
+    if r and r["signature"] not in sigs:
+      sigs.add(r["signature"])
+      fails.append(r)
   # every run: the branch where qEI falls back to the constant-liar optimiser (several pending points, failures, failure models, sums)
-  for inp in qei_fallback_sweep(rng, False) + [gen_endpoint(rng) for _ in range(ctx.n(80, 500))]:
+  for inp in qei_fallback_sweep(rng, False) + spe_pending_sweep(rng, False) + [gen_endpoint(rng) for _ in range(ctx.n(80, 500))]:
     n += 1
     r = oracle("endpoint", inp)
     if r and r["signature"] not in sigs:
@@ -753,7 +874,8 @@ def search(ctx, hints, broken):
         sigs.add(sig)
         fails.append(dict(signature=sig, what=f"endpoint {which}: the caller's request data were modified at {r2['request_diff']}", input=dict(kind="other-endpoint", which=which, **inp),
                           observed=r2["request_diff"], expected="request unchanged", oracle="deep snapshot before / after the call"))
-  return dict(evaluations=n, failures=fails, oracle="plain-Python list bookkeeping of expected data; deep snapshots of caller-owned objects")
+  return dict(evaluations=n, failures=fails, oracle="plain-Python list bookkeeping of expected data; deep snapshots of caller-owned objects; "
+              "for the real constant-liar loop: every pick is a point evaluated while the model held the lies at the previous picks")
 
 
 def replay_other(inp):
